@@ -6,17 +6,20 @@
 //! dictionaries (canonical spellings of a different length, overlapping / empty / out-of-range spans).
 //! Oracle (the property text on make_title_case_str(text, &PlainEnglish, &FstDictionary::curated())
 //! and harper_wasm::to_title_case): no panic, same length in chars, every changed character is the
-//! lower- or upper-case mapping of the input character or is a curly apostrophe inside a
+//! lower- or upper-case mapping of the input character, or a case variant of it (same lower- and
+//! upper-case mapping: the relation C18_case_only proves), or is a curly apostrophe inside a
 //! proper-noun word replaced by the straight one, the first word-like token starts upper-case when it
 //! starts with an ASCII letter, and a second conversion changes nothing.
 //! The same clauses (no panic, hull length, case-only) are evaluated on make_title_case over sub-slices of
 //! a document's tokens, the way patterns::IsNotTitleCase calls it.
-//! Monitors (each fails the oracle when violated, except H_case_stable which is only counted — its
-//! consequence, idempotence, is what the oracle checks): H_tokens_ok (C02 invariant + tiling of every
-//! PlainEnglish token list), H_canon_len (canonical spelling has the looked-up word's length; swept over
-//! the whole curated dictionary in four casings), H_case_stable (re-tokenising the output gives the
-//! same spans, kinds and word metadata, and each word's three dictionary facts agree), dict_ascii_ci,
-//! lower_ascii_law and lowercase_fixed (over all code points).
+//! Monitors (each fails the oracle when violated, except H_case_stable which is only counted — it is the
+//! lexer's part of idempotence, outside the model; its consequence, idempotence, is what the oracle
+//! checks): H_tokens_ok (C02 invariant + tiling of every PlainEnglish token list), H_canon_len (canonical
+//! spelling has the looked-up word's length; swept over the whole curated dictionary in four casings),
+//! H_case_stable (re-tokenising the output gives the same spans, kinds and word metadata),
+//! dict_case_insensitive (every Word token: the dictionary's answers for its text in the output are those
+//! for its text in the input), lower_ascii_law, upper_ascii_law, lowercase_fixed, apostrophes_caseless,
+//! apostrophes_lower_fixed and ascii_variant_closed (over all code points).
 use harper_core::parsers::{Markdown, PlainEnglish};
 use harper_core::{
     make_title_case, make_title_case_str, CharStringExt, Dictionary, Document, FstDictionary, Lrc, MutableDictionary,
@@ -107,11 +110,31 @@ fn safe_content<'a>(s: Span, src: &'a [char]) -> Option<&'a [char]> {
 /// real implementation (char methods, dictionary methods).
 fn case_line(toks: &[Token], src: &[char], dict: &impl Dictionary) -> String {
     let mut chars: BTreeMap<u32, String> = BTreeMap::new();
+    // the guard of the canonical copy may be asked about a source character, a canonical character, or the
+    // to_ascii_uppercase / to_ascii_lowercase image of one (written by an earlier, overlapping token)
+    let mut add_char = |c0: &char| {
+        for c in [*c0, c0.to_ascii_uppercase(), c0.to_ascii_lowercase()] {
+            chars.entry(c as u32).or_insert_with(|| {
+                let l: Vec<String> = c.to_lowercase().map(|x| (x as u32).to_string()).collect();
+                let u: Vec<String> = c.to_uppercase().map(|x| (x as u32).to_string()).collect();
+                format!("{} {} {} {} {} {}", c as u32, c.is_lowercase() as u32, l.len(), l.join(" "), u.len(), u.join(" "))
+            });
+        }
+    };
     for c in src {
-        chars.entry(*c as u32).or_insert_with(|| {
-            let l: Vec<String> = c.to_lowercase().map(|x| (x as u32).to_string()).collect();
-            format!("{} {} {} {}", *c as u32, c.is_lowercase() as u32, l.len(), l.join(" "))
-        });
+        add_char(c);
+    }
+    // is_case_variant compares the case mappings of the canonical spelling's characters, too
+    for t in toks {
+        if let TokenKind::Word(Some(_)) = &t.kind {
+            if let Some(w) = safe_content(t.span, src) {
+                if let Some(cc) = dict.get_correct_capitalization_of(w) {
+                    for c in cc {
+                        add_char(c);
+                    }
+                }
+            }
+        }
     }
     let mut canon: BTreeMap<Vec<char>, String> = BTreeMap::new();
     let mut meta: BTreeMap<Vec<char>, String> = BTreeMap::new();
@@ -162,6 +185,16 @@ fn shape(toks: &[Token]) -> Vec<(usize, usize, u32, u32)> {
 fn case_form(a: char, b: char) -> bool {
     a.to_lowercase().eq([b]) || a.to_uppercase().eq([b])
 }
+/// the same letter in possibly different case: same lower-case AND same upper-case mapping (also covers
+/// title-case forms such as U+01C5, which are neither mapping of their lower-case letter).  This is the
+/// relation C18_case_only proves (case_variant) and the one title_case.rs:is_case_variant computes.
+fn is_case_variant(a: char, b: char) -> bool {
+    a.to_lowercase().eq(b.to_lowercase()) && a.to_uppercase().eq(b.to_uppercase())
+}
+/// tc_rel of the Coq development: what C18_case_only allows between an input and an output character
+fn tc_rel(a: char, b: char) -> bool {
+    is_case_variant(a, b) || (is_curly_apostrophe(a) && b == '\'')
+}
 fn is_curly_apostrophe(c: char) -> bool {
     matches!(c, '’' | '‘' | '＇')
 }
@@ -191,6 +224,7 @@ fn tokens_not_ok(toks: &[Token], n: usize) -> Option<String> {
     None
 }
 
+const APOSTROPHES: &[char] = &['\'', '’', '‘', '＇']; // = tc_canonical_apostrophe_to :: tc_canonical_apostrophe_from (C18_source_shape)
 const SPECIAL_CONJUNCTIONS: &[&str] = &["and", "but", "for", "or", "nor"]; // = tc_special_conjunctions (C18_source_shape)
 
 /// the three things the loop body asks about a word's text
@@ -238,8 +272,8 @@ fn check_subslice(rep: &mut Report, toks: &[Token], a: usize, b: usize, src: &[c
     let start = sub.first().map(|t| t.span.start).unwrap_or(0);
     for i in 0..out.len() {
         let (x, y) = (hull[i], out[i]);
-        if x == y || x.to_lowercase().eq(y.to_lowercase()) {
-            continue; // FC18a (KELVIN SIGN) is reported by the whole-text oracle, not here
+        if x == y || case_form(x, y) || is_case_variant(x, y) {
+            continue;
         }
         let in_proper = sub.iter().any(|t| t.span.start <= start + i && start + i < t.span.end && t.kind.is_proper_noun());
         if is_curly_apostrophe(x) && y == '\'' && in_proper {
@@ -312,7 +346,10 @@ fn check_text(rep: &mut Report, world: &World, text: &str, origin: &str, r: Opti
             continue;
         }
         changed += 1;
-        if case_form(a, b) {
+        if !tc_rel(a, b) {
+            rep.count("changed_char_outside_the_theorem's_relation"); // never on a tree the model corresponds to
+        }
+        if case_form(a, b) || is_case_variant(a, b) {
             continue;
         }
         let in_proper = toks.iter().any(|t| t.span.start <= i && i < t.span.end && t.kind.is_proper_noun());
@@ -337,7 +374,26 @@ fn check_text(rep: &mut Report, world: &World, text: &str, origin: &str, r: Opti
     } else {
         rep.count("first_word_like:none");
     }
-    // (4) idempotence (+ H_case_stable, dict_ascii_ci)
+    // ---- dict_case_insensitive (premise of C18_idempotent_partial): for every Word token of the first pass, the
+    // dictionary's two answers for its text in the output are those for its text in the input whenever the two
+    // texts are related as C18_case_only says (case variants, curly -> straight apostrophe)
+    for t in &toks {
+        if let TokenKind::Word(_) = &t.kind {
+            let (u, v) = (t.span.get_content(&src), t.span.get_content(&outc));
+            if u.iter().zip(v).all(|(a, b)| tc_rel(*a, *b)) {
+                rep.monitor("dict_case_insensitive:checked", 1);
+                if u != v {
+                    rep.monitor("dict_case_insensitive:checked_on_changed_word", 1);
+                }
+                let (f1, f2) = (word_facts(u, dict), word_facts(v, dict));
+                if (&f1.0, f1.1) != (&f2.0, f2.1) {
+                    rep.monitor("dict_case_insensitive:violated", 1);
+                    rep.fail("dict_case_insensitive", format!("the dictionary answers differently for {:?} and {:?}", u.to_string(), v.to_string()), inp.clone());
+                }
+            }
+        }
+    }
+    // (4) idempotence (+ H_case_stable: does the real lexer give the second pass the same tokens?)
     let doc2 = guarded(|| Document::new_from_vec(Lrc::new(outc.clone()), &PlainEnglish, dict));
     let mut stable = true;
     let mut unstable_why = String::new();
@@ -375,15 +431,6 @@ fn check_text(rep: &mut Report, world: &World, text: &str, origin: &str, r: Opti
                     if f1 != f2 {
                         stable = false;
                         rep.monitor("H_case_stable:word_facts_differ", 1);
-                    }
-                    // dict_ascii_ci: a word that was not replaced by a canonical spelling differs by ASCII case only
-                    let ascii_only = w1.len() == w2.len() && w1.iter().zip(w2).all(|(a, b)| a == b || a.to_ascii_lowercase() == b.to_ascii_lowercase());
-                    if ascii_only {
-                        rep.monitor("dict_ascii_ci:checked", 1);
-                        if f1.0 != f2.0 {
-                            rep.monitor("dict_ascii_ci:violated", 1);
-                            rep.fail("dict_ascii_ci", format!("canonical spelling of {:?} and {:?} differ", w1.to_string(), w2.to_string()), inp.clone());
-                        }
                     }
                 }
             }
@@ -563,7 +610,7 @@ const SPECIAL: &[&str] = &[
 const TITLE_PUNCT: &[&str] = &[":", ",", ";", "!", "?", ".", "—", "–", "-", "/", "&", "(", ")", "\"", "“", "”", "'", "’", "…", "...", "|", "#", "*"];
 const TITLE_NONASCII: &[&str] = &[
     "café", "naïve", "résumé", "über", "Ångström", "ångström", "São", "Zoë", "zoë", "pokémon", "POKÉMON", "türkiye", "ŽIŽEK", "žižek", "ß", "straße", "İstanbul", "i\u{307}x", "ǆungla", "ǅungla", "ﬁsh", "ſo", "\u{212A}elvin",
-    "\u{212B}ngström", "éa", "Éa", "ñ", "Ñandú", "漢字", "こんにちは", "Привет", "ελληνικά", "😀", "e\u{301}", "ʻokina", "nukuʻalofa", "co₂", "CO₂",
+    "\u{212B}ngström", "éa", "Éa", "ñ", "Ñandú", "漢字", "こんにちは", "Привет", "ελληνικά", "😀", "e\u{301}", "ʻokina", "nukuʻalofa", "co₂", "CO₂", "ŉa", "ǰo", "ẖa", "ﬂy", "ǅ", "ΐ", "ı", "ſ",
 ];
 
 fn recase(r: &mut Rng, w: &str) -> String {
@@ -592,6 +639,7 @@ fn compat_letters(w: &str) -> String {
 }
 
 struct Vocab {
+    proper_lower_initial: Vec<String>, // proper nouns whose canonical spelling starts lower-case and has a capital later (eBay, iOS)
     proper: Vec<String>,
     proper_special: Vec<String>, // proper nouns with apostrophes, non-ASCII chars, inner capitals, digits
     prep_det: Vec<String>,
@@ -599,7 +647,7 @@ struct Vocab {
 }
 
 fn harvest(dict: &FstDictionary) -> Vocab {
-    let mut v = Vocab { proper: vec![], proper_special: vec![], prep_det: vec![], any: vec![] };
+    let mut v = Vocab { proper_lower_initial: vec![], proper: vec![], proper_special: vec![], prep_det: vec![], any: vec![] };
     let mut words: Vec<&[char]> = dict.words_iter().collect();
     words.sort();
     for (i, w) in words.iter().enumerate() {
@@ -607,6 +655,9 @@ fn harvest(dict: &FstDictionary) -> Vocab {
         let s: String = w.iter().collect();
         if md.is_proper_noun() {
             let special = w.iter().any(|c| !c.is_ascii_alphabetic()) || w.iter().skip(1).any(|c| c.is_uppercase()) || w.first().map(|c| c.is_lowercase()).unwrap_or(false);
+            if w.first().map(|c| c.is_lowercase()).unwrap_or(false) && w.iter().skip(1).any(|c| c.is_uppercase()) {
+                v.proper_lower_initial.push(s.clone());
+            }
             if special {
                 v.proper_special.push(s.clone());
             } else if i % 7 == 0 {
@@ -747,7 +798,8 @@ fn sweep_dictionary(rep: &mut Report, world: &World) {
     rep.extra.insert("dictionary_entries_swept_for_H_canon_len".into(), json!(n));
 }
 
-/// lower_ascii_law and lowercase_fixed (premises of C18_idempotent_case_insensitive_partial) over all code points
+/// lower_ascii_law, upper_ascii_law, lowercase_fixed, apostrophes_caseless, apostrophes_lower_fixed,
+/// ascii_variant_closed (premises of C18_case_only / C18_first_upper / C18_idempotent_partial) over all code points
 fn sweep_chars(rep: &mut Report) {
     for cp in 0..0x110000u32 {
         let Some(c) = char::from_u32(cp) else { continue };
@@ -759,6 +811,32 @@ fn sweep_chars(rep: &mut Report) {
         if !c.to_lowercase().eq(c.to_ascii_uppercase().to_lowercase()) || !c.to_lowercase().eq(c.to_ascii_lowercase().to_lowercase()) {
             rep.monitor("lower_ascii_law:violated", 1);
             rep.fail("lower_ascii_law", format!("to_lowercase of U+{cp:04X} depends on its ASCII case"), json!({"kind": "text", "text": c.to_string()}));
+        }
+        if !c.to_uppercase().eq(c.to_ascii_uppercase().to_uppercase()) || !c.to_uppercase().eq(c.to_ascii_lowercase().to_uppercase()) {
+            rep.monitor("upper_ascii_law:violated", 1);
+            rep.fail("upper_ascii_law", format!("to_uppercase of U+{cp:04X} depends on its ASCII case"), json!({"kind": "text", "text": c.to_string()}));
+        }
+        // apostrophes_caseless / apostrophes_lower_fixed: ' and the curly apostrophes have no case variant but themselves
+        for x in APOSTROPHES {
+            if c == *x {
+                if !c.to_lowercase().eq([c]) {
+                    rep.monitor("apostrophes_lower_fixed:violated", 1);
+                    rep.fail("apostrophes_lower_fixed", format!("to_lowercase changes the apostrophe U+{cp:04X}"), json!({"kind": "text", "text": c.to_string()}));
+                }
+            } else if is_case_variant(*x, c) {
+                rep.monitor("apostrophes_caseless:violated", 1);
+                rep.fail("apostrophes_caseless", format!("U+{cp:04X} is a case variant of the apostrophe U+{:04X}", *x as u32), json!({"kind": "text", "text": c.to_string()}));
+            }
+        }
+        // ascii_variant_closed: a case variant of an ASCII letter is an ASCII letter
+        if !c.is_ascii_alphabetic() {
+            let mut l = c.to_lowercase();
+            if let (Some(l0), None) = (l.next(), l.next()) {
+                if l0.is_ascii_alphabetic() && (is_case_variant(l0, c) || is_case_variant(l0.to_ascii_uppercase(), c)) {
+                    rep.monitor("ascii_variant_closed:violated", 1);
+                    rep.fail("ascii_variant_closed", format!("U+{cp:04X} is a case variant of the ASCII letter {l0:?}"), json!({"kind": "text", "text": c.to_string()}));
+                }
+            }
         }
         match c.to_lowercase().count() {
             1 => {}
@@ -785,9 +863,19 @@ fn main() {
     }
     let mut r = Rng::new(a.seed);
     let vocab = harvest(&world.dict);
-    rep.extra.insert("vocabulary".into(), json!({"proper_sampled": vocab.proper.len(), "proper_special": vocab.proper_special.len(), "prepositions_determiners": vocab.prep_det.len()}));
+    rep.extra.insert("vocabulary".into(), json!({"proper_lower_initial": vocab.proper_lower_initial.len(), "proper_sampled": vocab.proper.len(), "proper_special": vocab.proper_special.len(), "prepositions_determiners": vocab.prep_det.len()}));
     sweep_dictionary(&mut rep, &world);
     sweep_chars(&mut rep);
+    // proper nouns whose canonical spelling starts with a lower-case letter, as FIRST, middle and last word of a
+    // title in four casings: the first-letter write must still happen after the canonical copy ("ebay is great"
+    // -> "EBay Is Great")
+    for w in &vocab.proper_lower_initial {
+        for v in [w.clone(), w.to_lowercase(), w.to_uppercase(), gen::capitalize(&w.to_lowercase())] {
+            for t in [v.clone(), format!("{v} is great"), format!("the {v} of it"), format!("on {v}")] {
+                check_text(&mut rep, &world, &t, "lower-initial proper noun", None);
+            }
+        }
+    }
     for _ in 0..a.scale(3000, 60000) {
         let t = title(&mut r, &vocab);
         let mut r2 = r.fork();
